@@ -20,6 +20,7 @@ RULE = ("cases = clusters of 3-6 TimePoints at or within {0, +-1 s, +-1 min, "
         "spellings differ (representation, offset or form) and whose "
         "instants are equal or at most one day apart; distinct by (mode, "
         "a-fields, b-fields)")
+RUN_REPO_SUITE = True   # thorough tier: repo tests under these monitors
 DECIDING = ["cmp.post", "hash.post", "sub.sign", "offline.pairs"]
 MIN_EVALS = {"cmp.post": 20000, "hash.post": 2000, "sub.sign": 2000}
 ASSUMPTIONS = [
